@@ -61,7 +61,7 @@ def run_one(sc):
     rec = netlib.Recorder(env)
     base = {"id": 0, "f": 1, "sz": 0, "pis": 0, "wt": -1, "tot": 0, "cnt": [0] * nf, "byt": [0] * nf, "cr": [0] * nc,
             "fk": 0, "v": 0, "x": 0, "y": 0, "type": ""}
-    out = {"cfg": cfg, "incl": 0, "bind": sc.get("bind", ""), "ev": rec.ev}
+    out = {"cfg": cfg, "incl": 0, "bind": sc.get("bind", ""), "noout": 1 if sc.get("noout") else 0, "ev": rec.ev}
     try:
         s = build(env, sc)
     except BaseException as e:  # noqa
@@ -97,7 +97,9 @@ def run_one(sc):
             rec.ev.append(dict(base, e="D", t=ex(env.now), id=pkt.packet_id, f=pkt.flow_id + 1, sz=pkt.size, **state()))
             notify[0]()
 
-    s.out = Sink()
+    # "noout": the scheduler is the last element of the path (out stays None); departures are then not observable at a
+    # tap, only through the counters, packet_in_service and the monitor
+    s.out = None if sc.get("noout") else Sink()
 
     def make_packet(i, a):
         return Packet(env.now, a["sz"], i + 1, flow_id=a["f"] - 1)
